@@ -3,6 +3,34 @@
 import json, subprocess
 ALL = ["C%02d" % i for i in range(1, 21)]
 CHECKS = {
+ "C01": dict(level="exploration",
+   text="Generated search over hostile request bytes (well-formed requests of all 47 opcodes, stacked mutations: length lies, opcode holes, truncation, junk, extreme u32 at any body offset, missing NULs; and random bytes) x reply capacities x both transports x scripted filesystem results. Oracle inside the case: no panic (catch_unwind), canary frames around every buffer intact, at most one reply, every reply complete (len, unique, errno range, one datagram = one write call on the SEQPACKET /dev/fuse stand-in), FORGET/BATCH_FORGET never answered, well-formed answer-requiring requests answered exactly once. Exploration: the input space is all byte strings.",
+   design="3/C01", note="In-process catch_unwind + canary frames (no sanitizer in the quick tier); one SEQPACKET datagram == one write call; sound scripted filesystem.",
+   technique="property-based testing (proptest) with grammar+mutation+random generators, shrinking to a replay file"),
+ "C03": dict(level="exploration",
+   text="Generated search: opcode x scripted filesystem result (every stat field, timeouts, flags, handles, payloads, xattr value/count, locks, statfs, dirent lists with names of every length mod 8 and requested sizes, every errno, non-OS error kinds) served over both transports; the reply is decoded with the kernel's struct layouts and compared field by field with what the filesystem returned; directory replies are re-parsed record by record; notifications checked likewise.",
+   design="3/C03", note="Kernel header 7.38 + supplement for backing_id; canonical errno required only for 5 error kinds; pre-7.9 layouts not claimed.",
+   technique="property-based testing (proptest): result generator + kernel-layout decoder oracle, metamorphic equality of fuse_entry_out across entry-carrying replies"),
+ "C04": dict(level="exploration",
+   text="Stateful model-based testing of Reader/Writer over a /dev/fuse buffer and random virtio descriptor chains (segment lengths 0/1/page+-1, 3 regions, gaps, indirect tables): op sequences incl. nested splits and splits after partial consumption are interpreted against a flat byte-vector model; after every op returned bytes, file contents and available/consumed counters are compared, over-capacity ops must fail without effect, final buffer/guest memory and datagrams must equal the model, canaries intact. FileVolatileSlice (Bytes<usize>) and File vectored I/O are compared with a Vec<u8> model.",
+   design="3/C04", note="Unsplit /dev/fuse writer is written once (documented contract); cursor re-synchronised after a failed read_exact; canaries instead of a sanitizer.",
+   technique="stateful property-based testing (proptest, vec(op) + interpreter) against a reference byte-stream model"),
+ "C07": dict(level="exploration",
+   text="Model-based testing of the VFS: histories of mount/over-mount/umount (incl. >255 mounts for index wrap-around and root mounts), LOOKUP walks, every forwarded request kind, stale-inode probes, cross-mount rename/link and consistency probes run against a Vfs with scripted tree backends; a model client_ino -> (mount, backend inode), learned from replies joined with backend call logs, decides that each request reaches exactly the owning backend with its own inode number and nobody else.",
+   design="3/C07", note="Backends number entries consistently; stale numbers whose 8-bit slot was re-used are not claimed.",
+   technique="stateful property-based testing (proptest) with an encoding-agnostic routing model and backend call logs"),
+ "C13": dict(level="exploration",
+   text="Enumerates every obligation of the ABI table: struct sizes, each named field's offset and width (Rust offset_of!/size_of vs the C compiler's offsetof/sizeof on linux/fuse.h), coverage of kernel fields, every opcode/notify/flag constant; Opcode::from is checked over u32 ranges (thorough: all 2^32 values); stat/statvfs/setattr conversions are checked on generated values incl. round trip. The finite tables are enumerated completely (exhaustive_parts in the evidence).",
+   design="3/C13", note="Trusted base: installed kernel header 7.38 + 3-item supplement; committed Rust<->C name map.",
+   technique="differential enumeration against a C probe + property-based testing (proptest) of conversions"),
+ "C14": dict(level="exploration",
+   text="Same interpreter as C07 with global and per-mount id mappings (disjoint, adjacent, overlapping, size-1, near u32::MAX) on most mounts: an arithmetic model decides, per serving mount, the caller ids and owner-ids-to-set the backend must see and every owner id the client must see (lookup, getattr, setattr, create, mkdir, mknod, symlink, readdirplus, mount roots), applied exactly once, incl. slot reuse after over-mount and index wrap-around and requests on the root node with a backend mounted at /.",
+   design="3/C14", note="Valid mapping configurations only (base+range <= 2^32); mount-root attributes are those cached at mount time.",
+   technique="stateful property-based testing (proptest) with an arithmetic id-mapping model and backend call logs"),
+ "C17": dict(level="exploration",
+   text="Guest memory with an AtomicBitmap: (a) C04's writer/reader op sequences over random chains at arbitrary page offsets, (b) whole requests through handle_message (READ via write/write_from/both/partial-then-error, READDIR(PLUS), GETXATTR, LOOKUP, error and oversize replies). Oracle: dirty page set == pages intersecting the modelled written ranges (both directions), model cross-checked by a byte diff of guest memory.",
+   design="3/C17", note="4 KiB bitmap pages; written ranges for requests = reply message plus the bytes the filesystem produced.",
+   technique="property-based testing (proptest) with a written-range model vs the dirty bitmap"),
  "C02": dict(
    level="exploration",
    text="Generated search: every opcode x boundary/random valuations of every wire field (encoded through the kernel's own struct layouts) is served by Server<Arc<MockFs>> over both transports and the logged FileSystem call is compared with a protocol-level oracle table; a wrong method, swapped/dropped argument or missing flag test shows as a mismatch. Exploration is the right level: the domain is a huge product of field values with no finite abstraction the tools here could exhaust.",
